@@ -10,7 +10,7 @@ import numpy as np
 from lib import Prop, coq_eval
 import wmodel
 from wmodel import Driver, IdMap, snapshot
-from props.c02 import gen_build, well_formed, dense_by_tokens
+from props.c02 import gen_build, well_formed, dense_by_tokens, gen_edit, C02
 from util import TTNS
 
 
@@ -95,7 +95,10 @@ class C03(Prop):
 
     def _run_case(self, case):
         rng = random.Random(case["seed"])
-        drv = Driver(ttn_cls=TTNS, nprs=np.random.RandomState(case["seed"] % (2 ** 31)), lowrank=0.5 if case.get("lowrank") else 0.0)
+        # every fifth case: a hand-written INTEGER state (tensors of dtype int64); the factorisations have to promote it
+        intstate = case.get("intstate", case["seed"] % 5 == 0)
+        drv = Driver(ttn_cls=TTNS, nprs=np.random.RandomState(case["seed"] % (2 ** 31)), lowrank=0.5 if case.get("lowrank") else 0.0,
+                     ints=3 if intstate else None, complex_=not intstate, intdtype=intstate)
         small = case["nnodes"] <= 4
         ops = gen_build(rng, case["nnodes"], nopen_choices=(1,), dim_choices=(1, 2, 2) if small else (1, 2, 2, 3))
         if case.get("ops"):
@@ -136,7 +139,52 @@ class C03(Prop):
                 ops = ops + [[kind, c, mode]]
                 have_centre = True
         keep_seen = False
-        for op in ops[len(applied):]:
+        # structural edits between the canonical-form operations (every third case): a contraction, a split (QR / SVD), an inserted
+        # identity or a renaming changes the tree; the next operation is then a full canonical_form on the CURRENT tree
+        edits = (not case.get("ops")) and case.get("edits", case["seed"] % 3 == 0)
+        erng = random.Random(case["seed"] + 5)
+        fresh_ctr = [0]
+
+        def fresh():
+            fresh_ctr[0] += 1
+            return f"x{fresh_ctr[0]}"
+        pending = list(ops[len(applied):])
+        canon_seen = False
+        need_canon = False
+        while pending:
+            op = pending.pop(0)
+            if edits and canon_seen and erng.random() < 0.5:
+                pre_snap = snapshot(drv.ttn)
+                for _try in range(6):
+                    e = gen_edit(erng, pre_snap, fresh)
+                    if e[0] in ("contract", "split", "insert_identity", "rename"):
+                        break
+                else:
+                    e = None
+                if e is not None:
+                    ok, err = drv.apply(e)
+                    applied.append(e)
+                    t = drv.ttn
+                    steps.append({"ok": ok, "err": err, "snap": snapshot(t), "raws": {k: np.array(v) for k, v in t._tensors.data.items()},
+                                  "centre": t.orthogonality_center_id})
+                    self._stats[f"edit:{e[0]}:{'ok' if ok else 'rejected'}"] += 1
+                    if ok:
+                        tokens = C02._tokens_after(e, tokens, pre_snap)
+                        need_canon = True
+                        keep_seen = True     # an edit may leave zero-padded / non-isometric tensors; only the next canon restores the attribute
+            if op[0] != "scramble":
+                cur = list(drv.ttn.nodes)
+                if need_canon:
+                    op = ["canon", op[1] if op[1] in cur else erng.choice(cur), op[2]]
+                elif op[1] not in cur:
+                    op = [op[0], erng.choice(cur), op[2]]
+            elif op[1] not in drv.ttn.nodes:
+                op = ["scramble", erng.choice(list(drv.ttn.nodes)), op[2]]
+            if op[0] == "canon":
+                canon_seen = True
+                if need_canon:
+                    keep_seen = op[2] == "keep"
+                need_canon = False
             keep_seen = keep_seen or op[2] == "keep"
             shapes_before = shapes_by_neighbour(drv.ttn)
             ok, err = drv.apply(op)
@@ -184,6 +232,8 @@ class C03(Prop):
                 viol = f"after {op}: shapes changed in the shape-keeping mode"
                 continue
             full = complex(np.vdot(d.reshape(-1), d.reshape(-1)))
+            if any(nd.nopen_legs() != 1 for nd in t.nodes.values()):
+                continue      # scalar_product is defined for one open leg per node (edits may have moved open legs)
             cp = copy.deepcopy(t)
             loc = cp.scalar_product(use_orthogonal_center=True)
             ful2 = copy.deepcopy(t).scalar_product(use_orthogonal_center=False)
